@@ -338,8 +338,6 @@ def eff_path(kind, method, N, mcs, fast, name):
     if name.split("[")[0].split("(")[0] in SELF_ROOT and (kind == "root" or name.startswith("Chol")):
         return "direct"
     m = method
-    if kind == "rootinv" and plain_kron:
-        m = None  # Kronecker.root_inv_decomposition drops `method`
     if m is None:
         m = chosen_path(N, mcs, fast)
     if m == "diagonalization":
